@@ -679,7 +679,7 @@ def finish(ctx, level="model_checking"):
 # --------------------------------------------------------------------------
 # the common shape of a functional property check
 
-def exec_and_judge(ctx, component, cases_path, trace_module, label, per_case_timeout_ms=5000,
+def exec_and_judge(ctx, component, cases_path, trace_module, label, per_case_timeout_ms=30000,
                    env=None, sample_keys=None, judge_timeout=1500):
     """cases -> real code (harness exec) -> observation log -> TLC judge."""
     obs_path = ctx.path("obs-%s.ndjson" % label)
